@@ -106,6 +106,10 @@ def groups(tier, seed):
             yield {'kind': 'rel', 'zone': zone, 'now': list(now), 'only': None}
     yield {'kind': 'fmt'}
     yield {'kind': 'epoch'}
+    # several date conditions with different literals in one WHERE, some of them skipped for some rows
+    for zone in ('UTC', 'Europe/Berlin'):
+        for rd in ('sorted', 'rev'):
+            yield {'kind': 'compound', 'zone': zone, 'rd': rd, 'only': None}
 
 
 def single(case):
@@ -113,6 +117,8 @@ def single(case):
         return {'kind': 'abs', 'zone': case['zone'], 'base': case['base'], 'only': case['cond']}
     if case['kind'] == 'epoch':
         return {'kind': 'epoch', 'only': case['cond']}
+    if case['kind'] == 'compound':
+        return {'kind': 'compound', 'zone': case['zone'], 'rd': case['rd'], 'only': case['cond']}
     if case['kind'] == 'rel':
         return {'kind': 'rel', 'zone': case['zone'], 'now': case['now'], 'only': case['cond']}
     return {'kind': 'fmt'}
@@ -216,6 +222,66 @@ def eval_group(env, group, tier):
                 for op, spells in OPS.items():
                     conds.append(('%s %s' % (spells[0], text), op, a, b, 'relative'))
             run_conds(env, root, zone, times, conds, group, outs, extra_env={'FSX_NOW': str(enow)}, kind='rel')
+        finally:
+            env.rmtree(root)
+    elif kind == 'compound':
+        zone = group['zone']
+        base = dt.datetime(2020, 6, 15, 12, 0, 0)
+        tree, loc = {}, {}
+        for i, k in enumerate((-40, -3, -1, 0, 1, 3, 40)):
+            d_ = {}
+            for j, n in enumerate('abc'):
+                naive = base + dt.timedelta(days=k, hours=j * 5 - 5)
+                e_ = near_epochs(naive, zone)[0]
+                d_[n] = F(1, mtime=e_)
+                loc['./d%d/%s' % (i, n)] = (n, local_naive(e_, zone))
+            tree['d%d' % i] = core.D(d_, mtime=near_epochs(base + dt.timedelta(days=100 + i), zone)[0])
+        root = env.newdir('c13c')
+        core.materialise(root, tree)
+        L = {'L0': ('2020-06-12', dt.datetime(2020, 6, 12), dt.datetime(2020, 6, 12, 23, 59, 59)),
+             'L1': ("'2020-06-15 12'", dt.datetime(2020, 6, 15, 12), dt.datetime(2020, 6, 15, 12, 59, 59)),
+             'L2': ("'2020-06-16 17:00:00'", dt.datetime(2020, 6, 16, 17), dt.datetime(2020, 6, 16, 17)),
+             'L3': ('2020-07-01', dt.datetime(2020, 7, 1), dt.datetime(2020, 7, 1, 23, 59, 59))}
+
+        def D_(op, l):
+            txt, a, b = L[l]
+            return ('modified %s %s' % (op, txt), lambda n, t, op=op, a=a, b=b: truth(op, t, a, b))
+
+        def N_(n0):
+            return ("name = '%s'" % n0, lambda n, t, n0=n0: n == n0)
+
+        def AND(x, y):
+            return ('(%s and %s)' % (x[0], y[0]), lambda n, t: x[1](n, t) and y[1](n, t))
+
+        def OR(x, y):
+            return ('(%s or %s)' % (x[0], y[0]), lambda n, t: x[1](n, t) or y[1](n, t))
+
+        def NOT(x):
+            return ('not %s' % x[0], lambda n, t: not x[1](n, t))
+        forms = [OR(AND(N_('a'), D_('>', 'L1')), D_('<', 'L0')), AND(OR(D_('<', 'L0'), D_('>', 'L2')), D_('!=', 'L3')),
+                 OR(OR(N_('b'), D_('=', 'L1')), D_('>', 'L2')), AND(D_('>=', 'L1'), OR(N_('c'), D_('<', 'L2'))),
+                 AND(NOT(AND(N_('a'), D_('>=', 'L1'))), D_('<=', 'L2')), OR(AND(D_('>', 'L0'), D_('<', 'L1')), AND(D_('>', 'L2'), D_('<', 'L3'))),
+                 OR(D_('=', 'L2'), OR(AND(N_('b'), D_('<=', 'L0')), AND(N_('c'), D_('>=', 'L3')))),
+                 AND(OR(N_('a'), D_('>', 'L3')), OR(N_('b'), OR(D_('<', 'L1'), D_('=', 'L3'))))]
+        try:
+            for txt, f in forms:
+                if group.get('only') is not None and txt != group['only']:
+                    continue
+                q = 'path from . where is_file = true and %s into list' % txt
+                o = env.run([q], cwd=root, env={'TZ': zone, 'FSX_READDIR': group['rd']}, preload=True)
+                exp = sorted(p_ for p_, (n, t) in loc.items() if f(n, t))
+                r = {'case': {'kind': 'compound', 'zone': zone, 'rd': group['rd'], 'cond': txt}, 'nt': 0 < len(exp) < len(loc), 'layer': 'compound',
+                     'trans': len(loc)}
+                rows = o.rows()
+                if o.timeout or o.rc != 0 or o.err:
+                    r.update(status='viol', cls='compound:status', detail=dict(o.brief(), query=q, zone=zone), sig=('err', o.rc))
+                elif sorted(rows) != exp:
+                    got = set(rows)
+                    r.update(status='viol', cls='compound:rows', sig=('rows', txt),
+                             detail={'query': q, 'zone': zone, 'missing': sorted(set(exp) - got)[:6], 'extra': sorted(got - set(exp))[:6]})
+                else:
+                    r.update(status='ok', sig=(txt, len(exp)))
+                outs.append(r)
         finally:
             env.rmtree(root)
     elif kind == 'epoch':
